@@ -2,6 +2,8 @@
 import re, itertools
 from .. import xorrules, tables, callgraph
 from ..build import AnalysisBroken
+from ..vflow import access_path, fields_in_path, strip_ptr_casts
+from ..ir import INT
 
 EXPLANATION = (
     "The 38 flat-XOR codes are constant initialisers; they are read from the IR of the current tree and decided exhaustively. "
@@ -16,7 +18,80 @@ EXPLANATION = (
     "decode_parity. R02a/R02e: beyond-tolerance arms return errors; -1 sentinels are tested before use. NOT decided: "
     "correctness of the peel decoders as algorithms, xor_bufs_and_store arithmetic, 'for every payload length'.")
 
+def written_globals(mod):
+    """{global: first instruction of the unit that writes (into) it}"""
+    w = mod.__dict__.get('_written_globals')
+    if w is None:
+        w = {}
+        for fn in mod.functions.values():
+            for i in fn.insts():
+                dst = i.ops[1] if i.op == 'store' else (i.ops[0] if i.op == 'call' and (i.callee or '').startswith(('@llvm.memcpy', '@llvm.memset', '@llvm.memmove')) else None)
+                if dst is None:
+                    continue
+                v, n_ = dst, 0
+                while n_ < 12:
+                    n_ += 1
+                    d = fn.defs.get(v)
+                    if d is None or d.op not in ('bitcast', 'getelementptr'):
+                        break
+                    v = d.ops[0]
+                if isinstance(v, str):
+                    m_ = re.search(r'(@[\w.$]+)', v) if not v.startswith('%') else None
+                    if m_:
+                        w.setdefault(m_.group(1), i)
+        mod._written_globals = w
+    return w
+
+def rule_tables_constant(ctx, P):
+    """R05k: what the descriptor's table members point to is constant data"""
+    from ..oblig import _is_constant_global
+    r = ctx.rule('R05k', 'the equation tables a flat-XOR descriptor points to (parity_bms, data_bms) are constant data: the members receive addresses inside globals nothing ever writes',
+                 'a table kept in writable (static) memory is shared by every descriptor: creating a second instance of another shape rewrites the equations the first one decodes with')
+    n = 0
+    for u in xorrules.XOR_UNITS:
+        for fn in P.mod(u).functions.values():
+            for st in fn.insts():
+                if st.op != 'store':
+                    continue
+                fl = fields_in_path(access_path(P, fn, st.ops[1])[1])
+                if not fl or fl[-1] not in (('xor_code_s', 'parity_bms'), ('xor_code_s', 'data_bms')):
+                    continue
+                n += 1
+                bad, seen, stack = None, set(), [st.ops[0]]
+                while stack and bad is None:
+                    v = stack.pop()
+                    if v in seen or v == 'null':
+                        continue
+                    seen.add(v)
+                    d = fn.defs.get(v)
+                    if d is None:
+                        root = access_path(P, fn, v)[0]
+                        if isinstance(root, str) and root.startswith('@'):
+                            if not _is_constant_global(fn, root) and written_globals(fn.mod).get(root):
+                                bad = f'{root} (written at line {written_globals(fn.mod)[root].line})'
+                        else:
+                            bad = str(v)[:40]
+                    elif d.op in ('bitcast', 'getelementptr'):
+                        stack.append(d.ops[0])
+                    elif d.op == 'load':
+                        stack.append(d.ops[0])          # an entry of a (constant) table of tables
+                    elif d.op == 'select':
+                        stack += d.ops[1:]
+                    elif d.op == 'phi':
+                        stack += [x for x, _ in d.incoming]
+                    else:
+                        bad = f'{d.op} at line {d.line}'
+                inst = f'{fn.name}: store into {fl[-1][1]} at line {st.line}'
+                if bad is None:
+                    r.ok(inst + ': an address inside constant tables', func=fn.name, loc=st.loc)
+                else:
+                    r.fail(inst, func=fn.name, sig=f'{fl[-1][1]} := {bad}', loc=st.loc,
+                           msg=f'the descriptor member {fl[-1][1]} receives {bad}, which is not constant data: the equations of one descriptor can then be changed by '
+                               'whatever writes that memory later (another create)')
+    r.require_min(2)
+
 def rule_whitelist(ctx, P):
+    rule_tables_constant(ctx, P)
     mod = P.mod('src/builtin/xor_codes/xor_hd_code.c')
     acc, box = xorrules.accepted_shapes(P)
     ctx.extra['whitelist_box'] = box
@@ -155,6 +230,47 @@ def run(ctx):
     r = ctx.rule('R05h', 'xor_reconstruct_one falls back to the full decoder with the complete erasure list',
                  'a decoder that does not know which parities are erased solves with a zero-filled placeholder')
     xorrules.reconstruct_fallback_rule(P, r)
+    r.require_min(2)
+    r = ctx.rule('R05j', 'xor_reconstruct_one rebuilds a data element from the very equation index_of_connected_parity selected',
+                 'the selector is the only place that checks that no other member of the equation is lost: any other equation may contain a second erased element')
+    xr = P.fn('xor_reconstruct_one')
+    from ..poly import PolyCtx as _PC5j, Poly as _P5j
+    from ..cfg import dominators as _dm5j
+    from ..guards import dominating_edges as _de5j
+    pc5 = _PC5j(P, xr)
+    sels = [i for i in xr.insts() if i.op == 'call' and i.callee == '@index_of_connected_parity' and i.res]
+    if not sels:
+        raise AnalysisBroken('anchor vanished: xor_reconstruct_one does not call index_of_connected_parity')
+    Kat = [a_ for l_ in xr.insts() if l_.op == 'load' and fields_in_path(access_path(P, xr, l_.ops[0])[1])[-1:] == [('xor_code_s', 'k')] for a_ in pc5.val(l_.res).atoms()]
+    want5 = (pc5.val(sels[0].res) - _P5j.atom(Kat[0])) if Kat else None
+    nj = 0
+    for g_ in xr.insts():
+        if g_.op != 'getelementptr' or INT.match(g_.ops[-1]):
+            continue
+        root_, steps_ = access_path(P, xr, g_.ops[0])
+        fl_ = fields_in_path(steps_)
+        is_bms = bool(fl_) and fl_[-1] == ('xor_code_s', 'parity_bms')
+        bd_ = xr.defs.get(strip_ptr_casts(xr, g_.ops[0]))
+        if bd_ is not None and bd_.op == 'load':
+            fl2_ = fields_in_path(access_path(P, xr, bd_.ops[0])[1])
+            is_bms = is_bms or (bool(fl2_) and fl2_[-1] == ('xor_code_s', 'parity_bms'))
+        is_par = strip_ptr_casts(xr, g_.ops[0]) == xr.params[2][1]
+        if not (is_bms or is_par):
+            continue
+        # only where the selector's answer was accepted (>= 0)
+        from ..guards import lower_bound_at as _lb5j
+        lo_ = _lb5j(P, xr, sels[0].res, g_.bb)
+        if lo_ is None or lo_ < 0:
+            continue
+        nj += 1
+        got = pc5.val(g_.ops[-1])
+        inst = f'xor_reconstruct_one: {"parity_bms" if is_bms else "parity"}[...] at line {g_.line} is subscripted with the selected parity'
+        if want5 is not None and got == want5:
+            r.ok(inst, func=xr.name, loc=g_.loc)
+        else:
+            r.fail(inst, func=xr.name, sig=f'equation subscript {str(got)[:50]}', loc=g_.loc,
+                   msg=f'after index_of_connected_parity chose an equation, {"its bitmap" if is_bms else "the parity buffer"} is taken at subscript {got} instead of '
+                       f'{want5} (the selected parity minus k): an equation nobody checked for further erased members')
     r.require_min(2)
     r = ctx.rule('R05i', 'bitmaps assembled from an index list in a loop accumulate (|=), they are not overwritten',
                  'with "=" only the last listed element is rebuilt / counted: success with stale buffers for two or more erasures')
